@@ -384,6 +384,23 @@ var c19Laws = []struct {
 	{"ToLinkReference", c19LinkRefIdem},
 }
 
+// c19ByteFuncs are the exported transformers that return a byte slice.
+var c19ByteFuncs = []struct {
+	name string
+	f    func([]byte) []byte
+}{
+	{"EscapeHTML", util.EscapeHTML},
+	{"URLEscape", func(b []byte) []byte { return util.URLEscape(b, false) }},
+	{"URLEscape(resolve)", func(b []byte) []byte { return util.URLEscape(b, true) }},
+	{"UnescapePunctuations", util.UnescapePunctuations},
+	{"ResolveNumericReferences", util.ResolveNumericReferences},
+	{"ResolveEntityNames", util.ResolveEntityNames},
+	{"ToLinkReference", func(b []byte) []byte { return []byte(util.ToLinkReference(b)) }},
+	{"DoFullUnicodeCaseFolding", util.DoFullUnicodeCaseFolding},
+	{"ReplaceSpaces", func(b []byte) []byte { return util.ReplaceSpaces(b, '_') }},
+	{"VisualizeSpaces", util.VisualizeSpaces},
+}
+
 func c19All(c *core.Ctx, x []byte) {
 	for _, l := range c19Laws {
 		var d string
@@ -419,6 +436,60 @@ func runC19(c *core.Ctx) {
 		c19All(c, x)
 		c19All(c, []byte("[x](/u?&"+name+" \"&"+name+"\")"))
 		c.Count("named_references_checked", 1)
+	}
+	// 0c. long runs: one unit repeated n times (n at every boundary size), alone and after a one-unit prefix that shifts the
+	// alignment - functions that work through a fixed-size scratch buffer or switch to a bulk path beyond some length
+	units := []string{"a", " ", "%41", "%", "€", "é", "漢", "😀", "&amp;", "&#x20AC;", "\\*", "<", "\"", "&", "\x80", "ß", "İ", "\t"}
+	lk := 0
+	for _, n := range wl.BoundarySizes {
+		if n > 4097 {
+			continue
+		}
+		for ui, u := range units {
+			for _, pre := range []string{"", "a", "é", "[x](", "%4"} {
+				lk++
+				if !c.Mine(lk) {
+					continue
+				}
+				x := []byte(pre + strings.Repeat(u, n) + units[(ui+n)%len(units)])
+				c19All(c, x)
+				c.Count("long_run_strings", 1)
+			}
+		}
+	}
+	// 0d. results of successive calls are independent: what a call returned must not change when the function is called
+	// again (a result that lives in recycled memory), whatever the sizes of the two results
+	sizes := []int{0, 1, 7, 63, 64, 65, 255, 256, 257, 1023, 1024, 1025, 2049, 4097, 9000}
+	for i, n1 := range sizes {
+		for j, n2 := range sizes {
+			lk++
+			if !c.Mine(lk) {
+				continue
+			}
+			x1 := []byte(strings.Repeat(units[(i*3+j)%len(units)]+"<a&b\">", n1/6+1))
+			x2 := []byte(strings.Repeat(units[(i+j*5)%len(units)]+"\\&amp;\" é", n2/8+1))
+			for _, f := range c19ByteFuncs {
+				var r1, snap []byte
+				in1 := append([]byte(nil), x1...)
+				pv, _ := core.Try(func() {
+					r1 = f.f(x1)
+					snap = append([]byte(nil), r1...)
+					_ = f.f(x2)
+				})
+				c.Evals(2)
+				c.Count("result_independence_pairs", 1)
+				if pv != nil {
+					continue // panics are reported by the law stages
+				}
+				if !bytes.Equal(r1, snap) {
+					c.Violation(&core.Violation{Class: "law-" + f.name, Locus: "a later call changed an earlier result", Input: x1,
+						Detail: fmt.Sprintf("%s: result of the first call (%d bytes) changed after a second call on another input (%d bytes): %s", f.name, len(snap), len(x2), firstDiff(snap, r1))})
+				}
+				if !bytes.Equal(x1, in1) {
+					c.Violation(&core.Violation{Class: "law-" + f.name, Locus: "input modified", Input: in1})
+				}
+			}
+		}
 	}
 	// 1. exhaustive short strings
 	L := c.N(3, 5)
